@@ -66,6 +66,8 @@ pub struct Acc {
     pub evaluations: u64,
     pub units_done: u64,
     pub samples: Vec<Value>,
+    /// per-unit event-log hashes (determinism self-check compares them across processes)
+    pub unit_hashes: BTreeMap<u64, u64>,
 }
 
 impl Acc {
@@ -88,6 +90,9 @@ impl Acc {
             self.sets.entry(k.clone()).or_default().extend(s.iter().copied());
         }
         self.log_hash = self.log_hash.wrapping_add(o.log_hash);
+        for (k, v) in &o.unit_hashes {
+            self.unit_hashes.insert(*k, *v);
+        }
         self.evaluations += o.evaluations;
         self.units_done += o.units_done;
         for s in &o.samples {
@@ -99,11 +104,13 @@ impl Acc {
     /// order-independent contribution of one unit to the event-log hash
     pub fn log_unit(&mut self, unit: u64, h: u64) {
         self.log_hash = self.log_hash.wrapping_add(crate::util::fnv_mix(crate::util::fnv_mix(0x1234, unit), h));
+        self.unit_hashes.insert(unit, h);
     }
     pub fn to_json(&self) -> Value {
         json!({"t":"stats","counters": self.counters,
                "sets": self.sets.iter().map(|(k, s)| (k.clone(), s.iter().copied().collect::<Vec<u64>>())).collect::<BTreeMap<_,_>>(),
-               "log_hash": self.log_hash, "evaluations": self.evaluations, "units_done": self.units_done, "samples": self.samples})
+               "log_hash": self.log_hash, "evaluations": self.evaluations, "units_done": self.units_done, "samples": self.samples,
+               "unit_hashes": self.unit_hashes.iter().map(|(k, v)| (k.to_string(), *v)).collect::<BTreeMap<String, u64>>()})
     }
     pub fn from_json(v: &Value) -> Acc {
         let mut a = Acc::default();
@@ -122,6 +129,11 @@ impl Acc {
         a.evaluations = v["evaluations"].as_u64().unwrap_or(0);
         a.units_done = v["units_done"].as_u64().unwrap_or(0);
         a.samples = v["samples"].as_array().cloned().unwrap_or_default();
+        if let Some(c) = v["unit_hashes"].as_object() {
+            for (k, x) in c {
+                a.unit_hashes.insert(k.parse().unwrap_or(0), x.as_u64().unwrap_or(0));
+            }
+        }
         a
     }
 }
@@ -137,9 +149,10 @@ pub trait CheckImpl {
     fn replay(&mut self, replay: &Value) -> Option<(String, String, String)>;
     /// Extra evidence: rule text, assumptions, components.
     fn describe(&self, tier: Tier, acc: &Acc) -> Value;
-    /// how many units one worker process should take at most before it is restarted (0 = unlimited)
-    fn worker_exclusive(&self) -> bool {
-        false
+    /// Secondary engines run by the parent process after the units (e.g. Miri): returns
+    /// (violations, evidence object merged under coverage.secondary_engine).
+    fn secondary(&mut self, _tier: Tier, _seed: u64) -> (Vec<Viol>, Value) {
+        (Vec::new(), Value::Null)
     }
 }
 
@@ -495,7 +508,27 @@ pub fn check_main(check: &mut dyn CheckImpl, tier: Tier) -> ! {
     let workers: u64 = std::env::var("VERIF_WORKERS").ok().and_then(|s| s.parse().ok()).unwrap_or(16);
     let prop = check.id();
     println!("check {prop} tier={} seed={seed} workers={workers} units={}", tier.name(), check.units(tier, seed));
-    let res = run_units(check, tier, seed, workers);
+    let mut res = run_units(check, tier, seed, workers);
+    let (sec_viols, sec_evidence) = check.secondary(tier, seed);
+    res.viols.extend(sec_viols);
+
+    // determinism self-check: re-run the first units in one fresh process (different worker count,
+    // different process) and compare the per-unit event-log hashes. A difference is a harness error.
+    let det_units = check.units(tier, seed).min(std::env::var("VERIF_DET_UNITS").ok().and_then(|s| s.parse().ok()).unwrap_or(32));
+    let mut det_checked = 0u64;
+    if det_units > 0 {
+        let dir = format!("{}/target/run/{}", verif_root(), prop);
+        let o = run_worker(prop, tier, seed, 0, det_units, 1, &format!("{dir}/crash-det.json"), 900);
+        for (u, h) in &o.acc.unit_hashes {
+            match res.acc.unit_hashes.get(u) {
+                Some(h2) if h2 == h => det_checked += 1,
+                Some(h2) => harness_error(&format!(
+                    "nondeterminism: unit {u} of {prop} hashed {h:016x} in the re-run and {h2:016x} in the main run"
+                )),
+                None => {}
+            }
+        }
+    }
 
     // dedup: lowest unit per key
     let mut by_key: BTreeMap<(String, String, String), (Viol, u64)> = BTreeMap::new();
@@ -568,7 +601,11 @@ pub fn check_main(check: &mut dyn CheckImpl, tier: Tier) -> ! {
         "runs_per_hour": (res.acc.evaluations as f64 / res.wall_s.max(0.001) * 3600.0) as u64,
         "violations_detail": viol_summaries,
         "known_findings_matched": n_known,
+        "determinism_selfcheck_units_rerun_in_fresh_process": det_checked,
     });
+    if !sec_evidence.is_null() {
+        coverage["secondary_engine"] = sec_evidence;
+    }
     if let Some(extra) = d["extra"].as_object() {
         for (k, v) in extra {
             coverage[k] = v.clone();
